@@ -112,6 +112,12 @@ CHECKS = {
              "undocumented layout, calendar-invalid number) and per outcome of the normalisation (nulled, read as each period shape), whether the loader accepts it - 224 complete queries; every documented "
              "spelling of every valid period (year 1000-9999) is accepted; Duration and Time cells likewise; for 2-datapoint tables with an Integer and a Time_Period identifier in any two documented "
              "layouts the recorded validate flow rejects exactly the duplicate keys; NOT NULL constraints are complete over role x nullable."),
+    "C20": dict(technique="SMT (z3) over character-level encodings of BOTH acceptance functions (SQL: real normalize macro + loader pattern; Python: the real compiled regexes of _time_checking.py as automata + an integer summary of TimePeriodHandler proven equal to the real setters by CrossHair); witnesses replayed through run() and validate_dataset()",
+        engine="sqlsmt", ref="3 C20", category="model_checking",
+        note="The slicing glue of TimePeriodHandler.__init__ / from_input_customer_support_to_internal is a hand model: every solver witness is replayed through the real validate_dataset, and the model was validated on 160 sampled cells. "
+             "Only Time_Period cells are covered; Date/Time/Duration/numeric cells, extra columns, duplicates and dtypes are outside.",
+        text="Partial (Time_Period cells). For every cell of length 4-10 over [0-9ASQMWDasqmwd -] z3 decides per class of cell, direction (run() accepts / validate_dataset accepts) and normalisation outcome whether the two APIs "
+             "disagree; for documented spellings of valid periods the question is decided per layout. 7 CrossHair conditions tie the integer range logic to the real TimePeriodHandler setters."),
     "C21": dict(technique="SMT (z3) over a character-level encoding of the real SQL macros (vtl_period_normalize, vtl_period_to_*) and the real TIME_PERIOD_PATTERN compiled to an automaton; witnesses replayed on real DuckDB / run()",
         engine="sqlsmt", ref="3 C21", category="model_checking",
         note="Trusted: vt/sqlsmt/strmac.py string semantics on the modelled alphabet (self-checked against real DuckDB on every run), cal.py, hand transcription of the two documented format tables, z3. "
